@@ -618,12 +618,16 @@
 		global.get $__heap_top
 		i32.ge_s
 		if
-			;; $pages = ($block_size+WASM_PAGE_SIZE-1) / WASM_PAGE_SIZE)
+			;; 只按缺口扩容: $pages = (heap_ptr+block_size-heap_top) / WASM_PAGE_SIZE + 1
+			global.get $__heap_ptr
 			local.get $block_size
-			i32.const 65535 ;; WASM_PAGE_SIZE-1
 			i32.add
+			global.get $__heap_top
+			i32.sub
 			i32.const 65536 ;; WASM_PAGE_SIZE
-			i32.div_s
+			i32.div_u
+			i32.const 1
+			i32.add
 			local.set $pages
 
 			;; if memory.grow(pages) < 0 { return nil }
